@@ -75,20 +75,27 @@ example : parse (image { codec := 0x10, ch := 1, sr := 8000 } 3 [1, 2, 3] ++ [9,
 
 /-- `stale_frames_ignored` for W64 (sample-granular encodings): whatever SF_INFO.frames held at open, and however the
     frames were split over write calls and interleaved with header updates, the closed file is `image c N data` — an
-    expression in which the stale value does not occur.  (w64_open does NOT clear sf.frames: the value reaches the
-    header written at open — see `w64_open_header_shows_stale_frames` — but every later header is written from
-    recomputed lengths.  For the block codecs the stale value survives: KF-W64-STALE-FRAMES, outside this model.) -/
+    expression in which the stale value does not occur.  (Before the repair of w64_open the value reached the header
+    written at open — `w64_open_header_shows_stale_frames_old_rule` — and, for the block codecs, the closed file.) -/
 theorem stale_frames_ignored_w64 (c : Cfg) (hwf : c.wf) (stale : Int) (ops : List Op) (hv : ∀ op ∈ ops, op.valid c) :
     (close c (run c (openW c stale) ops)).bytes = image c (sessFrames ops) (sessData ops) := by
   have i := run_inv (wf_bw_pos hwf) ops (openW_inv c stale) hv
   have := (writeHeader_inv i (wf_bw_pos hwf) true).2.1 rfl
   simpa [close, image, tail] using this
 
-/-- the witness that the caller's value is not ignored everywhere: the 'fact' chunk of the header written by sf_open
-    holds it until the first header update (a crash before that leaves it on disk) -/
-theorem w64_open_header_shows_stale_frames :
-    ofLE (((openW { codec := 0x06, ch := 1, sr := 8000 } 99999).bytes.drop 104).take 8) = 99999 ∧
-    (openW { codec := 0x06, ch := 1, sr := 8000 } 99999).bytes ≠ (openW { codec := 0x06, ch := 1, sr := 8000 } 0).bytes := by
+/-- since the repair of w64_open the header written by sf_open does not depend on the caller's value either: it is the
+    header of an empty file whose lengths are not yet known (riff size 0, data size 24, fact 0) -/
+theorem w64_open_header_ignores_stale_frames (c : Cfg) (stale : Int) :
+    (openW c stale).bytes = hdrRaw c 0 0 0 ∧ (openW c stale).bytes = (openW c 0).bytes := by
+  refine ⟨?_, rfl⟩
+  simp [openW, writeHeader, writeAt]
+
+/-- the rule before the repair (`openW_old`): the 'fact' chunk of the header written by sf_open held the caller's value
+    until the first header update — a crash before that left it on disk -/
+theorem w64_open_header_shows_stale_frames_old_rule :
+    ofLE (((openW_old { codec := 0x06, ch := 1, sr := 8000 } 99999).bytes.drop 104).take 8) = 99999 ∧
+    (openW_old { codec := 0x06, ch := 1, sr := 8000 } 99999).bytes ≠ (openW_old { codec := 0x06, ch := 1, sr := 8000 } 0).bytes ∧
+    ofLE (((openW_old { codec := 0x02, ch := 1, sr := 8000 } 0).bytes.drop 96).take 8) = 23 := by
   decide +kernel
 
 /-- C11 `snapshot_valid` for W64: when SFC_UPDATE_HEADER_NOW returns, the store is byte for byte the closed file of the
